@@ -2,7 +2,7 @@
 import math, random
 import numpy as np
 import vlib
-from vlib import to_tangelo_gate, cyc_to_complex, frac_str
+from vlib import to_tangelo_gate, cyc_to_complex, frac_str, dump_tangelo_gate, gspec
 from fractions import Fraction
 
 CLAIM = {
@@ -101,6 +101,24 @@ def one_case(ctx, backend_name, specs, n, fixed, init):
         ctx.violation(f"{backend_name}: outcome frequencies differ from the Born rule of the documented state (qubit 0 first): "
                       f"code {dict(sorted(cfr.items()))} vs {dict(sorted((k, round(v, 10)) for k, v in mfr.items()))}", case)
         return False
+    if (len(specs) + n) % 3 == 0:
+        # the same backend object and the same circuit object once more, after another circuit of another width was run
+        # in between: nothing of a run may stay behind in the backend, the circuit or the initial state handed in
+        gates_before = [dump_tangelo_gate(g) for g in c]
+        init_before = None if init_np is None else init_np.copy()
+        try:
+            sim.simulate(Circuit([to_tangelo_gate(gspec("H", [0], None, None)), to_tangelo_gate(gspec("X", [n], None, None))]), return_statevector=True)
+            freqs2, sv2 = sim.simulate(c, return_statevector=True, initial_statevector=init_np)
+        except Exception as e:
+            ctx.violation(f"{backend_name}: simulating the same circuit a second time on the same backend object raises {vlib.err_name(e)}: {str(e)[:80]}", case)
+            return False
+        ctx.count(f"{backend_name}:second-run")
+        if [dump_tangelo_gate(g) for g in c] != gates_before or c.width != n or (init_before is not None and not np.array_equal(init_before, init_np)):
+            ctx.violation(f"{backend_name}: simulate modified the circuit or the initial state vector it was given", case)
+            return False
+        if not np.allclose(np.array(sv2).astype(complex).ravel(), sv, atol=1e-10) or set(freqs2) != set(freqs) or any(abs(complex(freqs2[k]) - complex(freqs[k])) > 1e-10 for k in freqs):
+            ctx.violation(f"{backend_name}: a second exact simulation of the same circuit on the same backend object gives a different state / distribution", case)
+            return False
     return True
 
 
